@@ -70,6 +70,31 @@ end Glom.Interp
 
 namespace Glom.Interp
 
+/-- does the spec contain a plain container in Fill or argument position (a Fill wrapper, a
+    Coalesce/Match/Switch default, Call arguments, an S(k=…) value) with at least one item? -/
+def hasArgContainer : Nat → Spec → Bool
+  | 0, _ => false
+  | fuel + 1, s =>
+    let h := hasArgContainer fuel
+    let isCont : Spec → Bool := fun x => match x with
+      | .list (_ :: _) | .tuple (_ :: _) | .dict _ (_ :: _) | .set _ (_ :: _) => true
+      | _ => false
+    match s with
+    | .fill x => isCont x || h x
+    | .coalesce subs d _ _ _ => (optSpecs d).any isCont || subs.any h || (optSpecs d).any h
+    | .call f as kw => isCont as || isCont kw || h f || h as || h kw
+    | .sBind bs => bs.any (fun b => isCont b.2 || h b.2)
+    | .mtch x d => (optSpecs d).any isCont || h x || (optSpecs d).any h
+    | .switch cases d => (optSpecs d).any isCont || cases.any (fun e => h e.1 || h e.2) || (optSpecs d).any h
+    | .and cs d | .or cs d => (optSpecs d).any isCont || cs.any h || (optSpecs d).any h
+    | .tuple xs | .list xs | .set _ xs | .pipe xs => xs.any h
+    | .dict _ es => es.any (fun e => h e.1 || h e.2)
+    | .specW x _ | .auto x | .group x | .not x => h x
+    | .letB bs => bs.any (fun b => h b.2)
+    | .invoke f _ blocks => h f || blocks.any (fun b => b.2.1.any h || b.2.2.any (fun kv => h kv.2))
+    | .ref _ (some x) => h x
+    | _ => false
+
 /-- top-level shape of a Fill result: a list / tuple / set spec is rebuilt as the same kind of
     container with one item per spec item, a dict as a dict; literals are returned as they are -/
 def fillShapeOK : Spec → V → Bool
